@@ -44,7 +44,8 @@ const (
 )
 
 // argDefault: schema default of argument x per field with arguments.
-var argDefault = map[string]int64{"Query.arg": 7, "Query.targ": 6}
+var argDefault = map[string]int64{"Query.arg": 7, "Query.targ": 6,
+	"Usr.score": 6, "Grp.score": 6, "Usr.related": 6, "Grp.related": 6}
 
 // Variable modes for operations that use $v.
 const (
@@ -97,14 +98,20 @@ var scalars = map[string]bool{"String": true, "ID": true, "Int": true}
 
 var schemaTab = map[string]*typeDef{
 	"Query": {Kind: "OBJECT", Objects: []string{"Query"}, Fields: []fieldDef{
-		{"t", "T"}, {"tReq", "T"}, {"ts", "T"}, {"node", "Node"}, {"u", "U"}, {"str", "String"}, {"strReq", "String"}, {"arg", "String"}, {"targ", "T"}, {"rep", "Rep"},
+		{"t", "T"}, {"tReq", "T"}, {"ts", "T"}, {"node", "Node"}, {"u", "U"}, {"str", "String"}, {"strReq", "String"}, {"arg", "String"}, {"targ", "T"}, {"rep", "Rep"}, {"ent", "Ent"},
 		{"__schema", "__Schema"}, {"__type", "__Type"}}}, // meta fields of the query root
 	"__Schema": {Kind: "OBJECT", Objects: []string{"__Schema"}, Fields: []fieldDef{{"queryType", "__Type"}}},
 	"__Type":   {Kind: "OBJECT", Objects: []string{"__Type"}, Fields: []fieldDef{{"name", "String"}}},
 	// Rep/Row are added by this check (c14_extra.graphql, hand-written Go model): schema fields
 	// that share ONE Go field and therefore one ComplexityRoot member
-	"Rep":      {Kind: "OBJECT", Objects: []string{"Rep"}, Fields: []fieldDef{{"old", "Row"}, {"rows", "Row"}, {"newFoo", "String"}, {"new_foo", "String"}}},
-	"Row":      {Kind: "OBJECT", Objects: []string{"Row"}, Fields: []fieldDef{{"id", "ID"}}},
+	"Rep": {Kind: "OBJECT", Objects: []string{"Rep"}, Fields: []fieldDef{{"old", "Row"}, {"rows", "Row"}, {"newFoo", "String"}, {"new_foo", "String"}}},
+	"Row": {Kind: "OBJECT", Objects: []string{"Row"}, Fields: []fieldDef{{"id", "ID"}}},
+	// Ent (added by this check): an interface with TWO implementors whose fields take an argument -
+	// a leaf and a composite one - so that one operation can select the same interface field several
+	// times with different arguments / sub-selections against custom functions that cross
+	"Ent":      {Kind: "INTERFACE", Objects: []string{"Grp", "Usr"}, Fields: []fieldDef{{"score", "Int"}, {"related", "Row"}}},
+	"Usr":      {Kind: "OBJECT", Objects: []string{"Usr"}, Fields: []fieldDef{{"score", "Int"}, {"related", "Row"}}},
+	"Grp":      {Kind: "OBJECT", Objects: []string{"Grp"}, Fields: []fieldDef{{"score", "Int"}, {"related", "Row"}}},
 	"Mutation": {Kind: "OBJECT", Objects: []string{"Mutation"}, Fields: []fieldDef{{"m1", "T"}, {"m2", "T"}, {"m3", "String"}}},
 	"T": {Kind: "OBJECT", Objects: []string{"T"}, Fields: []fieldDef{
 		{"id", "ID"}, {"name", "String"}, {"req", "String"}, {"plain", "String"}, {"plainReq", "String"},
@@ -159,6 +166,8 @@ type Grammar struct {
 	Alias     map[string]bool     // "Type.field" -> the aliased variant is enumerated too
 	ArgForms  []int               // forms of Query.arg
 	TargForms []int               // forms of Query.targ
+	Forms     map[string][]int    // argument forms of other fields with arguments ("Type.field")
+	AliasOnly map[string][]int    // "Type.field" -> the aliased variant only in these argument forms
 	Conds     []string            // type conditions tried for fragments (filtered by overlap with the parent)
 	VarModes  []int
 	Roots     []string
@@ -214,8 +223,14 @@ func (g *Grammar) nodes(parent string, k int) []*Node {
 			if parent == "Query" && fname == "arg" {
 				forms = g.ArgForms
 			}
+			if f, ok := g.Forms[parent+"."+fname]; ok {
+				forms = f
+			}
 			for _, a := range aliases {
 				for _, f := range forms {
+					if a && !g.aliasForm(parent+"."+fname, f) {
+						continue
+					}
 					out = append(out, &Node{Kind: KField, Name: fname, Alias: a, Arg: f})
 				}
 			}
@@ -231,8 +246,14 @@ func (g *Grammar) nodes(parent string, k int) []*Node {
 		if parent == "Query" && fname == "__type" {
 			forms = []int{ArgTypeName}
 		}
+		if f, ok := g.Forms[parent+"."+fname]; ok {
+			forms = f
+		}
 		for _, a := range aliases {
 			for _, f := range forms {
+				if a && !g.aliasForm(parent+"."+fname, f) {
+					continue
+				}
 				for _, kids := range g.sets(ft, k-1) {
 					out = append(out, &Node{Kind: KField, Name: fname, Alias: a, Arg: f, Kids: kids})
 				}
@@ -264,6 +285,20 @@ func (g *Grammar) nodes(parent string, k int) []*Node {
 	}
 	g.memoN[key] = out
 	return out
+}
+
+// aliasForm: is the aliased variant of the field enumerated in this argument form?
+func (g *Grammar) aliasForm(key string, form int) bool {
+	only, ok := g.AliasOnly[key]
+	if !ok {
+		return true
+	}
+	for _, f := range only {
+		if f == form {
+			return true
+		}
+	}
+	return false
 }
 
 // rootRefs: fragments on the root types are only enumerated if a root type is in Conds.
@@ -591,4 +626,33 @@ func (op *Op) Removals() []*Op {
 		out = append(out, cand)
 	}
 	return out
+}
+
+// Reversed returns the operation with every selection set in reverse order (fragment re-uses
+// renumbered to the new document order). Complexity must not depend on the order of selections.
+func (op *Op) Reversed() *Op {
+	oldDefs := op.defs()
+	clone := map[*Node]*Node{}
+	var rev func(sels []*Node) []*Node
+	rev = func(sels []*Node) []*Node {
+		out := make([]*Node, len(sels))
+		for i, n := range sels {
+			c := *n
+			c.Kids = rev(n.Kids)
+			clone[n] = &c
+			out[len(sels)-1-i] = &c
+		}
+		return out
+	}
+	r := &Op{Root: op.Root, Sels: rev(op.Sels), VarMode: op.VarMode, VarVal: op.VarVal}
+	newIdx := map[*Node]int{}
+	for i, d := range r.defs() {
+		newIdx[d] = i
+	}
+	walk(r.Sels, rootType(r.Root), func(n *Node, _ string) {
+		if n.Kind == KRef {
+			n.Ref = newIdx[clone[oldDefs[n.Ref]]]
+		}
+	})
+	return r
 }
